@@ -281,7 +281,11 @@ func c18Finish(c *Check, P string, listen, lit *ssa.Function, goLit *ssa.Go) {
 			dClose = append(dClose, d)
 			return
 		}
-		if f := FuncOfValue(d.Call.Value); f != nil {
+		f := FuncOfValue(d.Call.Value)
+		if cf := CalleeFn(&d.Call); cf != nil {
+			f = cf // a named (possibly generic) function deferred directly
+		}
+		if f != nil {
 			for _, cl := range CallsIn(f) {
 				if AllOrigins(cl.Common().Value, exportedFieldLoad("OnListenForReplyFinished")) {
 					dFinish = append(dFinish, d)
@@ -312,6 +316,9 @@ func c18Finish(c *Check, P string, listen, lit *ssa.Function, goLit *ssa.Go) {
 	// the finish hook is called at most once inside its closure and only skipped when unset
 	for _, d := range dFinish {
 		f := FuncOfValue(d.Call.Value)
+		if cf := CalleeFn(&d.Call); cf != nil {
+			f = cf
+		}
 		var hooks []ssa.CallInstruction
 		for _, cl := range CallsIn(f) {
 			if AllOrigins(cl.Common().Value, exportedFieldLoad("OnListenForReplyFinished")) {
@@ -415,7 +422,7 @@ func isListenerCtx(listen *ssa.Function) func(ssa.Value) bool {
 			return false
 		}
 		call, ok := e.Tuple.(*ssa.Call)
-		return ok && call.Parent() == listen && (CalleeName(call) == nWithCancel || CalleeName(call) == nWithTimeout)
+		return ok && HomeFn(call.Parent()) == listen && (CalleeName(call) == nWithCancel || CalleeName(call) == nWithTimeout)
 	}
 }
 
